@@ -42,7 +42,10 @@ def main():
     from isobar.timelines.event import Event, EventDefaults
 
     if req.get("list"):
-        out = {"scales": [[n, list(s.semitones), s.octave_size] for n, s in Scale.dict.items()]}
+        from isobar import constants as _c
+        out = {"scales": [[n, list(s.semitones), s.octave_size] for n, s in Scale.dict.items()],
+               # every string that occurs as a constant in isobar/constants.py (event keys, type names, interpolation modes ...)
+               "constant_strings": [[n, v] for n, v in vars(_c).items() if n.isupper() and type(v) is str]}
         real_stdout.write(json.dumps(out))
         return
 
